@@ -295,6 +295,13 @@ def build_value(bc, kind, param, enc, seed, bit):
         pats = [' ' * n, '0' * n, (' ' + body)[:n], (body[:max(0, n - 1)] + ' ')[:n] if n > 1 else ' ', '@' * n,
                 ('016' + body)[:n], ('None' + body)[:n], ('0' + body)[:n], (body[:max(0, n - 2)] + '00')[:n],
                 ('\\' * n)[:n]]
+        if pi >= len(pats):
+            # sentinel-like words and string literals of the library's own source as the WHOLE value (variable
+            # length elements) or as its beginning (fixed width)
+            from vf import literals
+            texts = [t for t in literals.cell_texts(24) if all(c in safe for c in t)]
+            t = texts[(pi - len(pats)) % len(texts)]
+            return t if n == 0 else (t + body)[:n]
         return pats[pi % len(pats)]
     if kind == 'N':
         return number_value(bc['field_length'], param, salt)
@@ -409,6 +416,8 @@ def single_variants(bc, tier='quick'):
         out += [['T', n] for n in range(1, top + 1)]
         out += [['TF', n] for n in (1, 2, 50, top)]
         out += [['TP', [n, pi]] for n in (1, 2, 7, top) for pi in range(10)]
+        from vf import literals
+        out += [['TP', [0, 10 + i]] for i in range(len(literals.cell_texts(24))) if top >= 24]
         if bc.get('field_processor') == 'DE43':
             out += [['DE43', i] for i in range(len(DE43_TEXTS))]
     elif cls == 'pan':
